@@ -1140,9 +1140,78 @@ def sec_circuits(ctx, rng, case):
         ctx.check(got_once == want_once, "single-step==one-substitution",
                   K_MOMENT_EQ if any(_eq_blind(m) for m in flat) and got_once - want_once <= names else "C10:single-step:circuit",
                   "names after one step %s, expected %s" % (sorted(got_once), sorted(want_once)), **wit)
+    _derived_after_queries(ctx, rng, moments, dims, env, full, wit)
     nsym_ops = sum(1 for m in flat if m.names())
     ctx.distinct(("circuit", tuple(tuple(m.show() for m in ops) for ops in moments), frozen), nontrivial=nsym_ops >= 1 and len(flat) >= 2)
     ctx.sample({"circuit": wit["circuit"], "env": env})
+
+
+def _derived_after_queries(ctx, rng, moments, dims, env, full, wit):
+    """A circuit that has already answered parameter questions (its answers are cached) is used to build other circuits
+    through every public route; each result must answer for the operations it holds now."""
+    import cirq
+
+    k = int(rng.integers(0, len(moments) + 1))
+    head, tail = moments[:k], moments[k:]
+    T = build_circuit(tail, dims)
+    hops = [build_op(m, dims) for ops in head for m in ops]
+    hflat, tflat = [m for ops in head for m in ops], [m for ops in tail for m in ops]
+    asked = []
+    for q in rng.permutation(4)[: int(rng.integers(1, 4))]:
+        asked.append(["is_parameterized", "parameter_names", "resolve", "resolve-unrelated"][int(q)])
+        [lambda: cirq.is_parameterized(T), lambda: cirq.parameter_names(T), lambda: cirq.resolve_parameters(T, full),
+         lambda: cirq.resolve_parameters(T, {"zz": 0.5})][int(q)]()
+    routes = []
+    if hops:
+        routes += [("ops + circuit", lambda: hops + T, hflat + tflat), ("circuit + Circuit(ops)", lambda: T + cirq.Circuit(hops), hflat + tflat),
+                   ("Moment + circuit", lambda: cirq.Moment(hops[:1]) + T, hflat[:1] + tflat)]
+
+        def appended():
+            c = T.copy()
+            c.append(hops)
+            return c
+
+        def inserted():
+            c = T.copy()
+            c.insert(int(rng.integers(len(c) + 1)), hops[0])
+            return c
+
+        def iadded():
+            c = T.copy()
+            c += hops
+            return c
+
+        def set_item():
+            c = T.copy()
+            if len(c):
+                c[0] = cirq.Moment(hops[:1])
+                return c, hflat[:1] + [m for ops in tail[1:] for m in ops]
+            return c, tflat
+
+        def batch_inserted():
+            c = T.copy()
+            c.batch_insert([(0, hops[0])])
+            return c
+
+        routes += [("copy().append", appended, hflat + tflat), ("copy().insert", inserted, hflat[:1] + tflat),
+                   ("copy() +=", iadded, hflat + tflat), ("copy().batch_insert", batch_inserted, hflat[:1] + tflat)]
+        c_, flat_ = set_item()
+        routes.append(("copy()[0] = Moment", lambda c_=c_: c_, flat_))
+    routes += [("circuit * 2", lambda: T * 2, tflat), ("copy()", lambda: T.copy(), tflat), ("circuit[:]", lambda: T[:], tflat),
+               ("freeze().unfreeze()", lambda: T.freeze().unfreeze(), tflat), ("unfreeze(copy=True)", lambda: T.unfreeze(copy=True), tflat),
+               ("circuit[1:]", lambda: T[1:], [m for ops in tail[1:] for m in ops])]
+    for i in rng.permutation(len(routes))[: 5]:
+        what, mk, holds = routes[int(i)]
+        D = mk()
+        want, ph_only = _agg_names(holds)
+        w2 = dict(wit, route=what, asked_before=asked, split=k)
+        _names_check(ctx, D, want, "derived-circuit", ph_only, **w2)
+        ctx.check(cirq.is_parameterized(D) == bool(want), "derived-circuit-answers-for-its-own-ops", "C10:derived-circuit:is_parameterized",
+                  "%s: is_parameterized says %s, the circuit holds symbols %s" % (what, cirq.is_parameterized(D), sorted(want)), **w2)
+        Rd = cirq.resolve_parameters(D, full)
+        left = [op for op in Rd.all_operations() if cirq.is_parameterized(op)]
+        ctx.check(not left and not cirq.is_parameterized(Rd), "derived-circuit-answers-for-its-own-ops", "C10:derived-circuit:not-resolved",
+                  "%s: after full resolution %d operations are still symbolic" % (what, len(left)), **w2)
 
 
 # =============================================================================================== 4. CircuitOperation
